@@ -326,16 +326,16 @@ structure Cfg where
   deriving DecidableEq, Repr
 
 /-- nOS-V: channel order `bodyid, taskid, task_type, appid, subsystem, rank, idle`;
-    `ST_TASK_BODY = 11` ("Task: In body"). -/
+    `ST_TASK_BODY` ("Task: In body", 11; regenerated). -/
 def Cfg.nosv : Cfg :=
   let d := Ovni.Generated.Nosv.chanDup
-  ⟨d.getD 1 false, d.getD 2 false, d.getD 0 false, d.getD 3 false, d.getD 5 false, d.getD 4 false, 11⟩
+  ⟨d.getD 1 false, d.getD 2 false, d.getD 0 false, d.getD 3 false, d.getD 5 false, d.getD 4 false, Ovni.Generated.Nosv.stTaskBody⟩
 
 /-- Nanos6: channel order `taskid, task_type, subsystem, rank, thread_type, idle`;
-    no body id / app id channels; `ST_TASK_BODY = 1` ("Task: Running body"). -/
+    no body id / app id channels; `ST_TASK_BODY` ("Task: Running body", 1; regenerated). -/
 def Cfg.nanos6 : Cfg :=
   let d := Ovni.Generated.Nanos6.chanDup
-  ⟨d.getD 0 false, d.getD 1 false, false, false, d.getD 3 false, d.getD 2 false, 1⟩
+  ⟨d.getD 0 false, d.getD 1 false, false, false, d.getD 3 false, d.getD 2 false, Ovni.Generated.Nanos6.stTaskBody⟩
 
 def Model.cfg : Model → Cfg
   | .nosv => Cfg.nosv
